@@ -20,17 +20,20 @@ SAN_ENV = {"ASAN_OPTIONS": "detect_leaks=1:abort_on_error=0:exitcode=99:allocato
            "LSAN_OPTIONS": "exitcode=97"}
 
 
-def run_proc(cmd, lines, timeout, env_extra=None, limit_cpu=None):
+def run_proc(cmd, lines, timeout, env_extra=None, limit_cpu=None, limit_mem=None):
     env = dict(os.environ)
     if env_extra:
         env.update(env_extra)
     data = ("\n".join(lines) + "\n").encode()
     pre = None
-    if limit_cpu:
+    if limit_cpu or limit_mem:
         import resource
 
         def pre():
-            resource.setrlimit(resource.RLIMIT_CPU, (limit_cpu, limit_cpu + 1))
+            if limit_cpu:
+                resource.setrlimit(resource.RLIMIT_CPU, (limit_cpu, limit_cpu + 1))
+            if limit_mem:
+                resource.setrlimit(resource.RLIMIT_AS, (limit_mem, limit_mem))
     try:
         p = subprocess.run(cmd, input=data, stdout=subprocess.PIPE, stderr=subprocess.PIPE, timeout=timeout,
                            env=env, preexec_fn=pre)
@@ -102,7 +105,7 @@ def summarize(err):
 
 
 def run_model(cfg, lines, timeout=600):
-    rc, got, err = run_proc([driver(), cfg], lines, timeout)
+    rc, got, err = run_proc([driver(), cfg], lines, timeout, limit_mem=6 << 30)
     if got and got[-1] == "":
         got = got[:-1]
     if rc != 0 or len(got) != len(lines):
